@@ -1,5 +1,5 @@
 (* C07 - Consumer offsets are exact, isolated per consumer and partition, and durable. *)
-From IggyV Require Import Base.Tactics Base.ListX Model.Part Model.PartSpec Proofs.PartBasics Proofs.PartHistory Proofs.OffsetsHistory.
+From IggyV Require Import Base.Tactics Base.ListX Model.Part Model.PartSpec Proofs.PartBasics Proofs.PartHistory Proofs.OffsetsHistory Proofs.PartCounts Proofs.CacheHistory Proofs.ReadExact Proofs.ReadPart Proofs.ReadHistory Proofs.ExpiryBasics Proofs.ExpiryHistory.
 Open Scope N_scope.
 
 Definition C07_full : Prop := forall c t0 ops, model_check c t0 ops = 0.
@@ -41,9 +41,21 @@ Proof.
   exact (o_bound _ HO).
 Qed.
 
+(* PROVED, history level WITH message expiry: the same statement for every operation list in which a message expiry may be
+   configured and changed at will and expiry-based retention runs at arbitrary times (Proofs/ExpiryHistory.v).  Side conditions:
+   segment size > 0, offsets below 2^32, log files below 2^32 bytes, and send timestamps that are non-zero and never go
+   backwards (the times at which maintenance passes run are arbitrary). *)
+Theorem C07_history_expiry_partial : forall ops c t0, 0 < c_seg c -> times_ok 0 ops -> Forall bounds_ok (prun_states (c, part_new c t0) ops) ->
+  let p := snd (pfinal (c, part_new c t0) ops) in
+  forall g k v, get_offset p g k = Some v -> v <= p_cur p.
+Proof.
+  intros ops c t0 Hseg Ht Hb. cbn zeta. destruct (history_E0 ops c t0 Hseg Ht Hb) as [HE _]. exact (o_bound _ (e_O _ _ _ HE)).
+Qed.
+
 Print Assumptions C07_store_get.
 Print Assumptions C07_bound.
 Print Assumptions C07_delete.
 Print Assumptions C07_durable.
 Print Assumptions C07_purge_removes.
 Print Assumptions C07_history_partial.
+Print Assumptions C07_history_expiry_partial.
